@@ -57,7 +57,7 @@ From Coq Require Import List NArith Bool String.
 Open Scope string_scope.
 From ApiFu Require Import Base.Sexp Gen.GoTypes Gen.ClientGenModel Gen.DecodeModel Gen.ClientGenSpec
      Gen.ClientGenMain Gen.ClientGenWitness Gen.ClientGenDeclSafe Gen.LoadSchemaModel Gen.LoadSchemaProofs
-     Gen.ClientGenAgree Gen.ClientGenClauses.
+     Gen.ClientGenAgree Gen.ClientGenFresh Gen.ClientGenClauses.
 Import ListNotations.
 
 (** the generator accepts every operation of the envelope and its output is well formed *)
@@ -104,6 +104,24 @@ Proof. exact real_too_deep. Qed.
 Theorem C20_decl_safe_sufficient : forall S d,
   schema_ok S = true -> decl_safe S d = true -> excl_decl_clash S d = false.
 Proof. exact decl_safe_excl. Qed.
+
+(** with or without a clash: the names the repaired generator assigns are pairwise distinct - the Go
+    field names of one struct, whatever its members; the Go names of the enum types, which also avoid
+    the reserved identifiers and the <Op>Data / <F>Fragment types; the enum constants, which also
+    avoid the enum types.  (A step towards the main statements without [excl_member_clash]: what is
+    still missing there is the decoding proof over these names.) *)
+Theorem C20_assigned_field_names_distinct : forall fields, NoDup (map snd (assign_names fields)).
+Proof. exact assigned_field_names_distinct. Qed.
+
+Theorem C20_enum_type_names_distinct : forall S d,
+  NoDup (map snd (fst (enum_name_map S d))) /\
+  (forall x, In x (map snd (fst (enum_name_map S d))) -> ~ In x (reserved_identifiers ++ doc_decl_names d)).
+Proof. exact enum_type_names_distinct. Qed.
+
+Theorem C20_enum_const_names_distinct : forall S d,
+  NoDup (map snd (const_name_map S d)) /\
+  (forall x, In x (map snd (const_name_map S d)) -> ~ In x (snd (enum_name_map S d))).
+Proof. exact enum_const_names_distinct. Qed.
 
 (** the same, clause by clause (definitions and the Go rule each clause stands for: ClientGenClauses.v):
     distinct struct members and well-targeted UnmarshalJSON statements, declared references,
@@ -217,6 +235,9 @@ Print Assumptions C20_load_schema_roundtrip.
 Print Assumptions C20_refuted_without_include_deprecated.
 Print Assumptions C20_refuted_type_ref_depth.
 Print Assumptions C20_real_invalid_no_output.
+Print Assumptions C20_assigned_field_names_distinct.
+Print Assumptions C20_enum_type_names_distinct.
+Print Assumptions C20_enum_const_names_distinct.
 Print Assumptions C20_gen_wf_clauses_partial.
 Print Assumptions C20_gen_decodes_partial.
 Print Assumptions C20_generators_agree.
